@@ -24,6 +24,7 @@ THEOREMS = ["FP.Props.C11." + t for t in [
     "missing_attr_ignored", "edgesToIgnore_exact", "expansion_nodes", "expansion_edges", "expansion_wf",
     "expansion_acyclic", "expanded_walk_condenses", "expanded_route_condenses", "node_mode_paths_condense",
     "condenseFlow_expandFlow", "kfdLP_ignore_as_set", "node_mode_is_edge_mode_on_expansion", "node_mode_accepts",
+    "node_mode_accepted_has_active",
     "dotted_names_condense_witness", "first_constraint_empty_witness"]]
 IMPORTS = ["FP.Props.C11"]
 RULE = ("node-weighted digraphs on 1-7 nodes: random DAGs and digraphs with self-loops / 2-cycles / nested cycles, isolated "
@@ -442,7 +443,7 @@ def gen_k2(rng):
         opts.update(optimize_with_safe_paths=False, optimize_with_safe_sequences=True, optimize_with_flow_safe_paths=False)
     if rng.random() < 0.2:
         opts["optimize_with_safe_zero_edges"] = rng.random() < 0.5
-    k2 = {"graph": cfg, "weight_type": "int" if wint else "float", "k": rng.randint(1, 3),
+    k2 = {"graph": cfg, "weight_type": "int" if wint else "float", "k": rng.randint(1, 3) if rng.random() < 0.97 else 0,
           "constraints_kind": kind, "constraints": cons,
           "coverage": rng.choice(["1", "1", "1/2", "3/4"]), "coverage_length": None,
           "ignore": [v for v in cfg["nodes"] if rng.random() < 0.2] + (["nosuch"] if rng.random() < 0.05 else []),
@@ -570,7 +571,7 @@ def _reach(cfg, roots, backwards):
     return seen
 
 
-def gen_k5(rng, cyclic, maxn=6):
+def gen_k5(rng, cyclic, maxn=6, perturb=True):
     """small node-weighted instance whose node values are (mostly) a superposition of weighted routes"""
     for _ in range(50):
         cfg = gen_graph(rng, maxn=maxn, cyclic=cyclic, hostile=rng.random() < 0.4, want_edges=rng.random() < 0.85)
@@ -603,7 +604,7 @@ def gen_k5(rng, cyclic, maxn=6):
         for x in w:
             val[x] += wt
     mode = rng.random()
-    if mode < 0.25:                      # perturb (error models; flow models become infeasible / unsolved)
+    if mode < 0.25 and perturb:          # perturb (error models; flow models become infeasible / unsolved)
         v = rng.choice(ns); val[v] = max(0, val[v] + rng.choice([-1, 1, 2]))
     missing = [v for v in ns if rng.random() < (0.15 if mode > 0.5 else 0.0)]
     cfg["node_flow"] = {v: val[v] for v in ns if v not in missing}
@@ -664,7 +665,7 @@ def k5_kwargs(cls, inst, node_mode):
     if "error_scaling" in ps and scal:
         kw["error_scaling"] = scal
     if "solver_options" in ps:
-        kw["solver_options"] = {"time_limit": TL}
+        kw["solver_options"] = {"time_limit": inst.get("time_limit", TL)}
     return kw
 
 
@@ -781,10 +782,14 @@ def run_k5(ctx, rng, per_class):
         cyc = name in CYC_CLASSES
         t0 = time.time()
         cnt = 0
-        while cnt < per_class and time.time() - t0 < ctx.n(14, 60):
-            inst = gen_k5(rng, cyclic=(rng.random() < 0.7) if cyc else False, maxn=5 if cyc else 6)
+        while cnt < per_class and time.time() - t0 < ctx.n(4, 60):
+            # the minimum searches walk through every k on an instance that has no decomposition at all (until the
+            # time limit): their instances are not perturbed, and the quick tier uses a short limit
+            inst = gen_k5(rng, cyclic=(rng.random() < 0.7) if cyc else False, maxn=5 if cyc else 6,
+                          perturb=not name.startswith("MinFlowDecomp"))
             if not applicable(name, inst):
                 continue
+            inst["time_limit"] = ctx.n(6, TL)
             a, b, comp = k5_case(ctx, name, inst)
             cnt += 1
             if done < 2 and a.get("solved"):
@@ -822,7 +827,7 @@ def run(ctx):
     run_witnesses(ctx)
     run_k1(ctx, rng, ctx.n(400, 10000))
     run_k2(ctx, rng, ctx.n(250, 4000))
-    run_k5(ctx, rng, ctx.n(10, 100))
+    run_k5(ctx, rng, ctx.n(20, 100))
     # the engine starts the failing-input search only when no violation was recorded at all; violations that are
     # known findings must not keep a broken tie from being investigated
     if ctx.disagreements and ctx.violations:
